@@ -487,8 +487,10 @@ def _pairs(maxlen, hi):
 def slave_strategy(cfg):
     pat = st.one_of(st.just([]), _pairs(3, 5), st.tuples(st.integers(1, 2), st.integers(6, 25)).map(list))
     if cfg["port"] == "native":
+        # (outstanding limits and read latencies beyond the 16 reservations of the checker's DMA reader are part of "memory timings")
         base = st.fixed_dictionaries(dict(ready=pat, wlat=st.lists(st.integers(3, 14), min_size=1, max_size=4),
-                                          rlat=st.lists(st.integers(5, 24), min_size=1, max_size=4), qmax=st.integers(1, 10)))
+                                          rlat=st.one_of(st.lists(st.integers(5, 24), min_size=1, max_size=4), st.lists(st.sampled_from([30, 45, 70]), min_size=1, max_size=2)),
+                                          qmax=st.one_of(st.integers(1, 10), st.sampled_from([20, 40, 64]))))
         # BIST cores are routinely put on clock-domain-crossing ports (test_bist_csr_cdc): stream-style memory side in a quarter of the cases
         style = st.one_of(st.just({}), st.just({}), st.just({}),
                           st.fixed_dictionaries(dict(style=st.just("fifo"), wdepth=st.sampled_from([1, 2, 4, 16]), rdepth=st.sampled_from([1, 2, 4, 16]))))
